@@ -3,5 +3,6 @@
 set -e
 cd "$(dirname "$0")"
 coqc -Q ../coq CffVerif Extract.v >/dev/null
-ocamlfind ocamlopt -O2 -w -a -package str cffmodel.mli cffmodel.ml driver.ml -o cffmodel 2>/dev/null || \
-ocamlfind ocamlopt -w -a cffmodel.mli cffmodel.ml driver.ml -o cffmodel
+ocamlfind ocamlopt -O2 -w -a -package str cffmodel.mli cffmodel.ml driver.ml -o cffmodel.new 2>/dev/null || \
+ocamlfind ocamlopt -w -a cffmodel.mli cffmodel.ml driver.ml -o cffmodel.new
+mv -f cffmodel.new cffmodel
